@@ -1,7 +1,7 @@
 (* SnapRead/ProofsTop.v — the proofs of the theorems restated in Props.v. *)
 From Verif Require Import Base.Lex SnapRead.Model SnapRead.ModelRead SnapRead.ProofsOrd SnapRead.ProofsList
   SnapRead.ProofsScanF SnapRead.ProofsScanR SnapRead.ProofsScanLoop SnapRead.ProofsScanLoopR
-  SnapRead.ProofsCache SnapRead.ProofsRead SnapRead.ProofsTerm SnapRead.ProofsMove SnapRead.ProofsBuffer.
+  SnapRead.ProofsCache SnapRead.ProofsRead SnapRead.ProofsTerm SnapRead.ProofsMove SnapRead.ProofsBuffer SnapRead.ProofsWorld SnapRead.ProofsWorldScan.
 
 (* For every truth (ascending keys), every snapshot ts, all bounds (empty = unbounded; even lo > hi),
    every batch size (0 and 1 are replaced by the default, sizes above 2^32-1 are capped, as in newScanner), key-only or not, EVERY
@@ -145,6 +145,46 @@ Proof.
       rewrite (bbuf_correct (fun _ => []) own w _ _ _ _ _ _ Hres k v). rewrite (group_keys_mem (fun _ => [])). cbn [In]. tauto.
   - intros ws ws' ol. reflexivity.
   - intros ts rs s l. apply own_lock_skipped.
+Qed.
+
+(* The scanner composed with the point get, over the world: the rows of every scan RPC are what the
+   world serves at that moment (a blocking lock answers "locked", without a value), a locked pair is
+   resolved by the point get of the same snapshot (resolveCurrentLock -> snapshot.get: status checks,
+   classification, lock resolution, the shared ignored set — all of it changing the world for the later
+   RPCs), region layouts change between the RPCs, RPCs are retried.  For every world with a sane
+   transaction table, every layout sequence, every retry schedule with at most R retries: the scan ends
+   within |P| + |T| + 2 + R scan RPCs (each point get within patience + 2 rounds) and returns exactly the
+   specification on the final truth, in both directions. *)
+Lemma C05_world_scan_proof :
+  forall (w : world) (ts : N) (lo hi : key) (B gfuel : nat) (ko rv : bool)
+         (retry : nat -> option retry_kind) (R : nat) (lay : nat -> layout) (P : list key),
+    txs_ok (w_txns w) ts ->
+    let T := final_truth w in
+    tsorted T -> (forall i, incl (lay i) P) -> bounded_retry retry 0 R ->
+    (patience (w_txns w) + 2 <= gfuel)%nat ->
+    (rv = true -> forall e, In e T -> fst e <> []) ->
+    exists out,
+      wscan (length P + length T + 2 + R) gfuel B ko ts w retry lay lo hi rv = Done out /\
+      map (canon ko) out = map (canon ko) (if rv then rev (expected ts lo hi T) else expected ts lo hi T).
+Proof.
+  intros w ts lo hi B gfuel ko rv retry R lay P Htx T HTs Hlay Hb Hg Hrv.
+  set (Fin := fun k => final_ws (w_txns w) (k_get (w_keys w) k)).
+  assert (HT : forall k, read_at ts k T = vis (Fin k) ts).
+  { intros k. unfold read_at, T. rewrite writes_of_final. reflexivity. }
+  assert (Hst : stinv ts Fin T gfuel (w, [])).
+  { split; [split; [exact Htx|split; [intros t []|intros k; reflexivity]]|]. split; [|exact Hg].
+    cbn [fst]. unfold T, final_truth. rewrite map_map. reflexivity. }
+  unfold wscan. destruct rv.
+  - destruct (wrev_loop ts Fin T HT ko (norm_batch B) gfuel P retry lay (norm_batch_pos B) HTs Hlay (Hrv eq_refl)
+                (length P + length T + 2 + R)%nat 0%nat (w, []) (init_cursor lo hi true) R Hst eq_refl Hb) as (out & H1 & H2).
+    + unfold mur'. cbn [init_cursor eof]. pose proof (mur_bound P (map fst T) (init_cursor lo hi true)) as H.
+      rewrite map_length in H. lia.
+    + exists out. split; [exact H1|]. cbn [init_cursor eof next_start next_end] in H2. rewrite H2. unfold Eexp. rewrite map_rev. reflexivity.
+  - destruct (wfwd_loop ts Fin T HT ko (norm_batch B) gfuel P retry lay (norm_batch_pos B) HTs Hlay
+                (length P + length T + 2 + R)%nat 0%nat (w, []) (init_cursor lo hi false) R Hst eq_refl Hb) as (out & H1 & H2).
+    + unfold mu'. cbn [init_cursor eof]. pose proof (mu_bound P (map fst T) (init_cursor lo hi false)) as H.
+      rewrite map_length in H. lia.
+    + exists out. split; [exact H1|]. exact H2.
 Qed.
 
 (* resolveLocks' decision: Ignore only if rolled back, committed above the caller's ts, or min
